@@ -198,6 +198,18 @@ struct World {
             t->then(ctxB, [this, k = Tok()](T &&v) { ++r.count2; r.ctxBAliveAtCall = ctxBAlive; r.tag2 = v.tag; T sink(std::move(v)); });
         }
     }
+    // a late continuation that owns a copy of its own task (attached through context B): on a finished task whose value is gone it must be
+    // released when then() returns - stored, it would keep the task alive through itself for good
+    void attach3(size_t i)
+    {
+        auto *t = ts.at(i);
+        auto self = std::make_shared<QXmppTask<T>>(*t);
+        if constexpr (std::is_void_v<T>) {
+            t->then(ctxB, [this, self, k = Tok()]() { ++r.count2; r.ctxBAliveAtCall = ctxBAlive; });
+        } else {
+            t->then(ctxB, [this, self, k = Tok()](T &&v) { ++r.count2; r.ctxBAliveAtCall = ctxBAlive; r.tag2 = v.tag; T sink(std::move(v)); });
+        }
+    }
     void finish(size_t j, bool conv)
     {
         auto *p = ps.at(j);
@@ -235,9 +247,9 @@ static std::string runOrdering(const std::vector<std::string> &ops, bool conv)
             auto deadP = [&](char c) { size_t i = c - '0'; return i >= w->ps.size() || !w->ps[i]; };
             if ((op == "tk" || op == "pc") && !w->liveP()) continue;
             if ((op.rfind("tc", 0) == 0 || op.rfind("dt", 0) == 0) && deadT(op[2])) continue;
-            if ((op[0] == 'a' || op[0] == 'b') && deadT(op[1])) continue;
+            if ((op[0] == 'a' || op[0] == 'b' || op[0] == 'c') && deadT(op[1])) continue;
             if (op[0] == 'a' && !w->ctxAlive) continue;
-            if (op[0] == 'b' && !w->ctxBAlive) continue;
+            if ((op[0] == 'b' || op[0] == 'c') && !w->ctxBAlive) continue;
             if (op[0] == 'f' && deadP(op[1])) continue;
             if (op.rfind("dp", 0) == 0 && deadP(op[2])) continue;
             if (op == "P") w->ps.push_back(new QXmppPromise<T>());
@@ -246,6 +258,7 @@ static std::string runOrdering(const std::vector<std::string> &ops, bool conv)
             else if (op == "pc") w->ps.push_back(new QXmppPromise<T>(*w->liveP()));
             else if (op[0] == 'a') w->attach(op[1] - '0', op[2]);
             else if (op[0] == 'b') w->attach2(op[1] - '0');
+            else if (op[0] == 'c') w->attach3(op[1] - '0');
             else if (op[0] == 'f') w->finish(op[1] - '0', conv);
             else if (op == "x") w->killCtx();
             else if (op == "y") w->killCtxB();
